@@ -2307,6 +2307,39 @@ def flagset(t, depth=0):
     return None
 
 
+def flag_conditions(t, depth=0):
+    """{flag name: True | condition term}: which named flags a flags-valued term holds, and under which boolean — like
+    flagset(), plus `f.set(FLAG, b)` (member exactly when b) ; None if unknown"""
+    fs = flagset(t)
+    if fs is not None:
+        return {k: True for k in fs}
+    if depth > 20 or not isinstance(t, tuple) or not t:
+        return None
+    if len(t) == 4 and t[0] == "upd" and isinstance(t[1], str) and t[1].endswith("::set") and len(t[3]) == 2:
+        base = flag_conditions(t[2], depth + 1)
+        which = flagset(t[3][0])
+        if base is None or which is None or len(which) != 1:
+            return None
+        name = next(iter(which))
+        out = dict(base)
+        b = t[3][1]
+        if b == ("const", 1):
+            out[name] = True
+        elif b == ("const", 0):
+            out.pop(name, None)
+        else:
+            out[name] = b
+        return out
+    if len(t) == 4 and t[0] == "upd" and isinstance(t[1], str) and (_names_is(t[1], "BitOrAssign::bitor_assign") or t[1].endswith("::insert")) and len(t[3]) == 1:
+        base, add = flag_conditions(t[2], depth + 1), flagset(t[3][0])
+        if base is None or add is None:
+            return None
+        out = dict(base)
+        out.update({k: True for k in add})
+        return out
+    return None
+
+
 def flag_delta(t, depth=0):
     """(base, added): a flags-valued term as `base | added-flags` where base is the first sub-term that is not an OR of
     named constants (e.g. `self.flags`), or None when the value is built from constants only"""
